@@ -3176,6 +3176,6 @@ def inline_closure_calls(facts, fn, rounds=3):
         nj["blocks"], nj["locals"], nj["names"] = blocks, locals_, names
         nf = Fn(nj, cur.crate)
         nf.inlined = True
-        nf.inlined_paths = set(getattr(cur, "inlined_paths", set()))
+        nf.inlined_paths = set(getattr(cur, "inlined_paths", set())) | {b2["term"]["inlined"] for b2 in blocks if b2["term"].get("inlined")}
         cur = nf
     return cur
